@@ -315,6 +315,14 @@ def _add(bundle: Bundle, val: BundleAttr) -> BundleAttr:
         msg = f"Invalid Bundle attribute {val} for {bundle}"
         raise TypeError(msg)
 
+    # Re-using a name replaces its prior attribute. Remove that from its own type-specific container too,
+    # which may be the other one, e.g. when a Bundle Instance takes over the name of a Signal.
+    prior = bundle.namespace.get(val.name, None)
+    if prior is not None:
+        for ctr in (bundle.signals, bundle.bundles):
+            if ctr.get(val.name, None) is prior:
+                ctr.pop(val.name)
+
     # Add it to the bundle namespace, and the type-specific container
     type_ctr[val.name] = val
     bundle.namespace[val.name] = val
